@@ -155,6 +155,11 @@ fn parse(text: &str) -> Parse {
                 }
             }
 
+            // A paragraph may end in comment lines
+            if self.current().is_none() || self.current() == Some(NEWLINE) {
+                return;
+            }
+
             self.builder.start_node(ENTRY.into());
 
             // First, parse the key and colon
